@@ -596,7 +596,7 @@ def jobs(tier):
 
 LEVEL = "other"
 BOUNDS = {
-    "quick": "(A) all ordered pairs of 24 call patterns (ints/floats/bools/strs/tuples/None, positional vs keyword, keyword order) x typed, maxsize None and 2, sequence p,q,p; (B) from every state reachable by calling 0..3 distinct keys (of 3; thorough: of 4) in any order: every sequence of 2 operations over {call k, failing call k, cache_discard k, cache_clear, cache_info} for maxsize in {None,-3,0,1,2,3,default} against the real C functools.lru_cache and a reference model, plus the same with maxsize a symbolic unbounded int (>= -2) against the model; (C) methods/classmethods/staticmethods: sequences of 2 operations over two instances x 3 keys, clear, discard; (D) 10 decorator forms",
+    "quick": "(A) all ordered pairs of 24 call patterns (ints/floats/bools/strs/tuples/None, positional vs keyword, keyword order) x typed, maxsize None and 2, sequence p,q,p; (B) from every state reachable by calling 0..3 distinct keys (of 3; thorough: of 4) in any order: every sequence of 2 operations over {call k, failing call k, cache_discard k, cache_clear, cache_info} for maxsize in {None,-3,0,1,2,3,default} against the real C functools.lru_cache and a reference model, plus the same with maxsize a symbolic unbounded int (>= -2) against the model; (C) methods/classmethods/staticmethods: sequences of 2 operations over two (falsy) instances x 3 keys, clear, discard; (D) 10 decorator forms",
     "thorough": "(B) 4 keys and 3 operations, (C) 3 operations",
 }
 OUTSIDE = ["histories longer than prefix+3 (k-step simulation from every canonical state replaces length-40 histories; assumes the observable state - ordered contents and counters - determines future behaviour)", "more than 4 distinct keys in the dynamics part, maxsize 4..5 concretely (covered by the symbolic-maxsize harness against the model only)", "unhashable arguments"]
